@@ -26,6 +26,9 @@ type iterCase struct {
 	ViaEngine  bool   `json:"via_engine"`
 	Ungated    bool   `json:"ungated"`  // no gate: halt after DelayUS microseconds of real time instead
 	DelayUS    int    `json:"delay_us"` //
+	// EngineDefault > 0 (engine path only): the engine's default depth option is this value while
+	// the analysis itself asks for Depth (0 = explicitly no limit): the per-search option wins.
+	EngineDefault int `json:"engine_default_depth,omitempty"`
 }
 
 type directResult struct {
@@ -95,7 +98,10 @@ var checkC15 = def("C15/iterative", func(c iterCase) error {
 	}
 	if c.ViaEngine {
 		eopts := engine.Options{}
-		if limit > 0 && c.Param%2 == 0 {
+		if c.EngineDefault > 0 {
+			eopts.Depth = uint(c.EngineDefault)
+			opt.DepthLimit = lang.Some(uint(limit)) // Some(0) = explicitly unlimited
+		} else if limit > 0 && c.Param%2 == 0 {
 			// default depth option of the engine instead of a per-search limit
 			eopts.Depth, opt = uint(limit), searchctl.Options{}
 		}
@@ -312,16 +318,19 @@ var checkC15 = def("C15/iterative", func(c iterCase) error {
 	if c.ViaEngine {
 		labels = append(labels, "via-engine")
 	}
+	if c.EngineDefault > 0 {
+		labels = append(labels, "per-search-limit-overrides-engine-default")
+	}
 	if !g.Cur().Pos.HasLegal() {
 		labels = append(labels, "root-without-moves")
 	}
-	stats.Case("C15/iterative", stats.FP(c.FEN, fmt.Sprint(c.Moves), c.Config, c.Param, c.Depth, c.Cap, c.HaltAt, c.ViaEngine, c.Ungated), true, labels...)
+	stats.Case("C15/iterative", stats.FP(c.FEN, fmt.Sprint(c.Moves), c.Config, c.Param, c.Depth, c.Cap, c.HaltAt, c.ViaEngine, c.Ungated, c.EngineDefault), true, labels...)
 	stats.Note("C15/iterative", "iterations_compared", int64(len(got)))
 	return nil
 })
 
 func genIterCase(t *rapid.T) iterCase {
-	sc := genSearchCase(t, searchConfigs)
+	sc := genSearchCase(t, abConfigs)
 	cfg, _ := findConfig(sc.Config)
 	g, err := gen.GameCase{FEN: sc.FEN, Moves: sc.Moves}.Build()
 	cap := 2
@@ -339,6 +348,9 @@ func genIterCase(t *rapid.T) iterCase {
 		c.HaltAt = rapid.IntRange(1, max(1, cap)).Draw(t, "haltat")
 	}
 	c.ViaEngine = rapid.Bool().Draw(t, "viaengine")
+	if c.ViaEngine && rapid.IntRange(0, 3).Draw(t, "enginedefault") == 0 {
+		c.EngineDefault = rapid.IntRange(1, max(1, cap)).Draw(t, "defaultdepth")
+	}
 	if rapid.IntRange(0, 5).Draw(t, "ungated") == 0 {
 		c.Ungated = true
 		c.DelayUS = rapid.SampledFrom([]int{0, 1, 20, 200, 2000}).Draw(t, "delay")
